@@ -114,6 +114,15 @@ check(
     thorough=False,
 )
 
+check(
+    "C17",
+    "other",
+    "(K1) z3 regular-expression equivalence, unbounded in name length, between the regex the real Options.compile_glob emits and the documented rule ('stars match zero or more module components') for every unstructured pattern of <= 3/4 components over {a,b,*}; (K2) symbolic execution of the real build_per_module_cache/clone_for_module/apply_changes on solver-chosen section sets in solver-chosen file order with symbolic option values: the resolved value must be the term of the winner under the documented precedence (concrete > unstructured, later wins > structured, more specific wins > global). Equivalence of configuration sources (flag table x source matrix) and inline comments are not covered.",
+    "trusted: z3 (sequence/regex theory); translation of the emitted regex subset (fails closed); K2 takes unstructured membership from the real compile_glob. Known finding: leading '*'.",
+    "z3 regex language equivalence + symbolic execution of real Python source (decision-replay)",
+    "DESIGN.md 4/C17",
+)
+
 ALL = [f"C{i:02d}" for i in range(1, 21)]
 
 
